@@ -16,11 +16,13 @@ Template directives (lines starting with `//@`):
   //@ after "<stmt text>"      following lines are inserted after the (unique) statement text
   //@ before "<stmt text>"     same, before
   //@ after-loop <n>           following lines are inserted after the closing brace of the n-th loop
+  //@ fn-begin                 following lines go at the very start of the function body (structural anchor)
   //@ loop-begin <n> / loop-end <n>   following lines go at the start / end of the n-th loop's body (structural anchors)
   //@ params <a> <b> ..        alpha-rename the non-self parameters, by position, to these names (rule R7)
   //@ locals <a> <b> ..        pinned names of the simple let/for/if-let bindings in order of first binding; a body whose
                                bindings differ only by name is alpha-renamed back to them (rule R7b)
-  //@ subst "<old>" => "<new>" [count=<k>]   literal replacement in the body, site count checked (logged as R-local)
+  //@ subst "<old>" => "<new>" [count=<k>|count=*]   literal replacement in the body, site count checked (logged as R-local);
+                               count=* replaces every occurrence, none required (for std calls whose vstd spec is too weak)
   //@ end
 
   //@ item <file> :: <container> :: ... :: <kw> <name> [derive=<list>] [vis=pub]
@@ -303,6 +305,29 @@ def rule_r8_result_combinators(body, log, where):
         recv = body[rstart:s_].strip()
         n8d += 1
         body = body[:rstart] + 'match %s { Some(%s) => %s, None => %s }' % (recv, mm.group(2).strip(), mm.group(3).strip(), mm.group(1).strip()) + body[pclose + 1:]
+    n8e = 0
+    while True:
+        kind = rs.code_mask(body)
+        hit = None
+        for s_, e_, m in rs.find_code(body, kind, r'\.\s*map\s*\(\s*\|', 0, len(body)):
+            popen = body.index('(', s_)
+            pclose = rs.match_close(body, kind, popen)
+            mu = re.match(r'\s*\.\s*unwrap_or\s*\(', body[pclose + 1:])
+            if mu:
+                hit = (s_, popen, pclose, mu); break
+        if hit is None:
+            break
+        s_, popen, pclose, mu = hit
+        inner = body[popen + 1:pclose]
+        mm = re.match(r'\s*\|(.+?)\|\s*(.+)$', inner, re.S)
+        uopen = pclose + 1 + mu.end() - 1
+        uclose = rs.match_close(body, kind, uopen)
+        dflt = body[uopen + 1:uclose].strip()
+        rstart = _receiver_start(body, kind, s_)
+        recv = body[rstart:s_].strip()
+        n8e += 1
+        body = body[:rstart] + 'match %s { Some(%s) => %s, None => %s }' % (recv, mm.group(1).strip(), mm.group(2).strip(), dflt) + body[uclose + 1:]
+    log.hit('R8e.option_map_unwrap_or', n8e, where)
     log.hit('R8c.option_and_then', n8c, where)
     log.hit('R8d.option_map_or', n8d, where)
     log.hit('R8a.and_then', n8a, where)
@@ -536,10 +561,10 @@ def rule_r4_any_all(body, log, where):
         n += 1
         rv = '__r4_%d' % n
         if which == 'any':
-            new = ('{ let mut %s = false; for %s in %s { if %s { %s = true; break; } } %s }'
+            new = ('({ let mut %s = false; for %s in %s { if %s { %s = true; break; } } %s })'
                    % (rv, param, recv, expr, rv, rv))
         else:
-            new = ('{ let mut %s = true; for %s in %s { if !(%s) { %s = false; break; } } %s }'
+            new = ('({ let mut %s = true; for %s in %s { if !(%s) { %s = false; break; } } %s })'
                    % (rv, param, recv, expr, rv, rv))
         body = body[:rstart] + new + body[close + 1:]
     log.hit('R4.any_all_inline', n, where)
@@ -587,6 +612,7 @@ class FnDirective:
         self.loop_end = {}    # n -> lines inserted before the closing brace of the n-th loop body
         self.loop_begin = {}  # n -> lines inserted after the opening brace of the n-th loop body
         self.before_loop = {} # n -> lines inserted before the n-th loop statement
+        self.fn_begin = []    # lines inserted right after the opening brace of the function body
 
 
 def parse_opts(rest):
@@ -663,7 +689,7 @@ def apply_fn(d, log, fnmap, out_lineno):
     edits = []  # (start, end, text): insertion when start == end, else replacement
     for old, new, count in d.substs:
         hits = [(m.start(), m.end()) for m in re.finditer(anchor_regex(old), body) if bk[m.start()] == 'c']
-        if len(hits) != count:
+        if count >= 0 and len(hits) != count:
             raise Undecided('lost anchor: subst "%s" in %s matches %d sites, expected %d' % (old, d.spec, len(hits), count))
         for a, b in hits:
             edits.append((a, b, new))
@@ -690,6 +716,8 @@ def apply_fn(d, log, fnmap, out_lineno):
         be = rs.match_close(body, bk, bo)
         pos = bo + 1 if begin else be
         edits.append((pos, pos, '\n' + '\n'.join(lines) + '\n'))
+    if d.fn_begin:
+        edits.append((1, 1, '\n' + '\n'.join(d.fn_begin) + '\n'))
     for n, lines in d.before_loop.items():
         if n < 1 or n > len(loops):
             raise Undecided('lost anchor: loop %d of %s (has %d loops)' % (n, d.spec, len(loops)))
@@ -977,6 +1005,8 @@ def expand(template_path, out_path, extra_tail=''):
                     elif c2.startswith('params '):
                         d.params = c2[7:].split()
                         cur = None
+                    elif c2 == 'fn-begin':
+                        cur = d.fn_begin
                     elif c2.startswith('before-loop '):
                         cur = []
                         d.before_loop[int(c2.split()[1])] = cur
@@ -999,8 +1029,8 @@ def expand(template_path, out_path, extra_tail=''):
                         cur = []
                         d.after.append((m.group(1), cur, mode))
                     elif c2.startswith('subst '):
-                        m = re.match(r'subst\s+"(.*)"\s*=>\s*"(.*)"(\s+count=(\d+))?\s*$', c2)
-                        d.substs.append((m.group(1), m.group(2), int(m.group(4) or 1)))
+                        m = re.match(r'subst\s+"(.*)"\s*=>\s*"(.*)"(\s+count=(\d+|\*))?\s*$', c2)
+                        d.substs.append((m.group(1), m.group(2), -1 if m.group(4) == '*' else int(m.group(4) or 1)))
                         cur = None
                     else:
                         raise SystemExit('bad directive in fn block: ' + s2)
